@@ -121,7 +121,10 @@ def heapText (h : Heap) : String :=
     s!"{a}={c.rc}/{c.obj.kindName}[" ++ ",".intercalate (c.obj.kids.map valText) ++ "]")
 
 def traceLine (s : VmState) : String :=
-  s!"{s.ip}:{s.stack.length}:{s.frames.length}:" ++ ",".intercalate (s.stack.map valText) ++ ":" ++ heapText s.heap
+  s!"{s.ip}:{s.stack.length}:{s.frames.length}:" ++ ",".intercalate (s.stack.map valText)
+    ++ ":" ++ ",".intercalate (s.globals.map valText)
+    ++ ":" ++ ",".intercalate (s.frames.map fun fr => match fr.closure with | some a => s!"C@{a}" | none => "-")
+    ++ ":" ++ heapText s.heap
 
 def outcomeText : Outcome → String
   | .running => "running"
